@@ -342,3 +342,56 @@ func iterAt(pj *simdjson.ParsedJson, k int) simdjson.Iter {
 	}
 	return it
 }
+
+// rootReuseDump: the documented allocation-free pattern — ONE destination
+// iterator reused for every Root(dst) call, and moreover one that was used for
+// something else before and abandoned mid-walk (stepped onto scalars and a
+// container).  Must expose exactly what plain traversal exposes.
+func rootReuseDump(pj *simdjson.ParsedJson) (s string, err error) {
+	defer func() {
+		if r := recover(); r != nil {
+			err = fmt.Errorf("panic: %v", r)
+		}
+	}()
+	var b strings.Builder
+	dst := pj.Iter()
+	dst.Advance()     // onto the first root: a container's extent is queued
+	dst.AdvanceInto() // into it
+	dst.AdvanceInto()
+	dst.Advance()
+	it := pj.Iter()
+	var obj simdjson.Object
+	var arr simdjson.Array
+	for {
+		t := it.Advance()
+		if t == simdjson.TypeNone {
+			break
+		}
+		if t != simdjson.TypeRoot {
+			return "", fmt.Errorf("top-level type %v", t)
+		}
+		_, r, err := it.Root(&dst)
+		if err != nil {
+			return "", err
+		}
+		// reused Object / Array destinations as well
+		switch r.Type() {
+		case simdjson.TypeObject:
+			if _, err := r.Object(&obj); err != nil {
+				return "", err
+			}
+		case simdjson.TypeArray:
+			if _, err := r.Array(&arr); err != nil {
+				return "", err
+			}
+		}
+		if err := dumpValue(&b, r, 0); err != nil {
+			return "", err
+		}
+		b.WriteByte('|')
+		// leave the destination dirty for the next round
+		dst.AdvanceInto()
+		dst.Advance()
+	}
+	return b.String(), nil
+}
